@@ -429,10 +429,11 @@ class Circuit:
                 ll.reader = node_map[inn]  # connect to existing fork
                 ll.reader_pin = 0
             ll.reader.ins[ll.reader_pin] = ll
+        unused = []
         for l, ll in zip(impl_out_lines, node_out_lines):  # connect outputs
             if ll is None:
                 if l.driver in node_map:
-                    self.remove_dangling_nodes(node_map[l.driver])
+                    unused.append(node_map[l.driver])
                 continue
             if len(l.reader.outs) > 0:  # output is also read by impl. circuit, connect to fork.
                 ll.driver = node_map[l.reader]
@@ -441,6 +442,9 @@ class Circuit:
                 ll.driver = node_map[l.driver]
                 ll.driver_pin = l.driver_pin
             ll.driver.outs[ll.driver_pin] = ll
+        for n in unused:  # prune logic of unconnected outputs only after all connected outputs are attached
+            if n.circuit is not None:
+                self.remove_dangling_nodes(n)
 
     def resolve_tlib_cells(self, tlib):
         """Substitute all technology library cells with kyupy native simulation primitives.
